@@ -37,6 +37,8 @@ def specs(r):
     S.append(('swt', lambda: SWTForward(J=2, wave='db2'), (1, 2, 16, 24), 0.0))
     for b, q in (('near_sym_a', 'qshift_a'), ('near_sym_b', 'qshift_b'), ('antonini', 'qshift_d')):
         S.append(('dtcwt/%s' % b, lambda b=b, q=q: DTCWTForward(J=3, biort=b, qshift=q), (1, 2, 24, 32), 0.0))
+    S.append(('dtcwt/skip', lambda: DTCWTForward(J=3, skip_hps=[True, False, True], include_scale=True), (1, 2, 24, 32), 0.0))
+    S.append(('dtcwt/skipall', lambda: DTCWTForward(J=2, biort='legall', qshift='qshift_06', skip_hps=True, o_dim=1, ri_dim=2), (1, 2, 20, 16), 0.0))
     for bias in (0.0, 1e-2, 0.5):
         S.append(('scat1/%g' % bias, lambda bias=bias: ScatLayer(magbias=bias), (1, 2, 16, 24), bias))
         S.append(('scat1c/%g' % bias, lambda bias=bias: ScatLayer(magbias=bias, combine_colour=True), (1, 3, 16, 16), bias))
@@ -142,7 +144,7 @@ def oracle_run(cfg):
             if nm.startswith('scat'):
                 gain = scat_gain(nm, shp)
             else:
-                gain = gain_of(lambda t: flat(m64(t)), shp)
+                gain = gain_of(lambda t: flat(m64(t)), shp, batched=True)
             bound = 64 * eps32 * (gain * xmax + bias)
             err = max(float((a.double() - b).abs().max()) for a, b in zip(y32, y64) if a.numel())
             if err > bound:
@@ -180,10 +182,10 @@ def oracle_run(cfg):
         def run_inv(t):
             parts, off = [], 0
             for s in [yl.shape] + [h.shape for h in yh]:
-                k = int(np.prod(s)); parts.append(t[off:off + k].reshape(s)); off += k
+                k = int(np.prod(s)); parts.append(t[:, off:off + k].reshape((t.shape[0],) + tuple(s[1:]))); off += k
             return [i64((parts[0], parts[1:]))]
         n_in = int(yl.numel() + sum(h.numel() for h in yh))
-        gain = gain_of(run_inv, (n_in,))
+        gain = gain_of(run_inv, (1, n_in), batched=True)
         bound = 64 * eps32 * gain * xmax
         err = float((y32.double() - y64).abs().max())
         if err > bound:
@@ -216,7 +218,7 @@ def scat_gain(nm, shp):
         _SG[key] = (2 * g) ** (2 if nm.startswith('scat2') else 1)
     return _SG[key]
 
-def gain_of(f, shp, linear=True, m=None):
+def gain_of(f, shp, linear=True, m=None, batched=False):
     """largest absolute row sum of the operator: rows = outputs, columns = inputs; via basis inputs in float64"""
     n = int(np.prod(shp))
     if not linear:
@@ -225,6 +227,15 @@ def gain_of(f, shp, linear=True, m=None):
         return (g1 ** 2) ** (2 if 'j2' in type(m).__name__.lower() else 1) * 4
     rows = None
     with torch.no_grad():
+        if batched and shp[0] == 1:
+            # the transforms act on each batch item independently: feed the basis vectors as a batch
+            per = int(np.prod(shp[1:])); B = 128
+            for k0 in range(0, per, B):
+                nb = min(B, per - k0)
+                E = torch.zeros(nb, per, dtype=torch.float64); E[torch.arange(nb), k0 + torch.arange(nb)] = 1
+                o = torch.cat([t.abs().sum(0).reshape(-1) for t in f(E.reshape((nb,) + tuple(shp[1:]))) if t.dim() > 0])
+                rows = o if rows is None else rows + o
+            return float(rows.max())
         for k in range(n):
             e = torch.zeros(n, dtype=torch.float64); e[k] = 1
             o = torch.cat([t.reshape(-1) for t in f(e.reshape(shp))]).abs()
